@@ -60,6 +60,15 @@ BeadOut(B, md, bd, P, Vv, Ff, fl) ==
       RECURSIVE Cands(_)
       Cands(j) == IF j > np THEN {Zero3}
                   ELSE {VAdd(VScale(w[j], VAdd(r0, m)), rest) : m \in mi[j].mins, rest \in Cands(j + 1)}
+      \* unwrapped parents (unique images when every parent is "below")
+      uu == TLCEval([j \in 1..np |-> VAdd(r0, CHOOSE m \in mi[j].mins : TRUE)])
+      \* ellipsoidal beads: n^2 * (gyration tensor of the unwrapped parents with non-zero weight),
+      \* n = number of such parents:  G = sum_j q_j q_j^T,  q_j = n u_j - sum_k u_k
+      gsel == {j \in 1..np : w[j] > 0}
+      gn == Cardinality(gsel)
+      gS == VSumRange([j \in 1..np |-> IF j \in gsel THEN uu[j] ELSE Zero3], 1, np)
+      gq == [j \in 1..np |-> VSub(VScale(gn, uu[j]), gS)]
+      G(a, b) == SumRange([j \in 1..np |-> IF j \in gsel THEN gq[j][a] * gq[j][b] ELSE 0], 1, np)
       vsel == {j \in 1..np : HasV(fl, par[j])}
       fsel == {j \in 1..np : HasF(fl, par[j])}
   IN [err |-> IF ~fl.hp THEN "no"
@@ -77,7 +86,13 @@ BeadOut(B, md, bd, P, Vv, Ff, fl) ==
       mass |-> SumRange([j \in 1..np |-> md.mass[par[j]]], 1, np),
       cert |-> \A j \in 1..np : mi[j].cert,
       \* unwrapped parents (only meaningful when every parent is "below": unique images)
-      u |-> [j \in 1..np |-> VAdd(r0, CHOOSE m \in mi[j].mins : TRUE)],
+      u |-> uu,
+      \* orientation data of an ellipsoidal bead with >= 3 parents (documentation of Bead::getU/V/W):
+      \* d2, d3 = vectors from the first to the second / third unwrapped parent, G as above
+      ell |-> IF bd.sym = 3 /\ np >= 3
+              THEN [on |-> TRUE, d2 |-> VSub(uu[2], uu[1]), d3 |-> VSub(uu[3], uu[1]),
+                    G |-> << <<G(1, 1), G(1, 2), G(1, 3)>>, <<G(2, 1), G(2, 2), G(2, 3)>>, <<G(3, 1), G(3, 2), G(3, 3)>> >>]
+              ELSE [on |-> FALSE, d2 |-> Zero3, d3 |-> Zero3, G |-> <<Zero3, Zero3, Zero3>>],
       cls |-> cls]
 
 MolOut(B, md, P, Vv, Ff, fl) == [b \in 1..Len(md.beads) |-> BeadOut(B, md, md.beads[b], P, Vv, Ff, fl)]
